@@ -78,10 +78,10 @@ m = {
   'add_only': True,
  },
  'engines': [{'name': 'sim', 'path': 'sim/', 'serves_properties': claimed,
-              'kind_free_text': 'hand-written deterministic simulator: seeded program generator, interpreter over a shared world, seams (global RNG, EM step observer, numpy.linalg shim, sys.settrace interrupts), reference models, ddmin shrinker, replay files'}],
+              'kind_free_text': 'hand-written deterministic simulator: seeded program generator, interpreter over a shared world, seams (global RNG, EM step observer, numpy.linalg shim, sys.settrace interrupts, two caller threads under one baton with a seeded pre-emption schedule, BLAS thread limits, forked pristine-process replica), reference models, ddmin shrinker, replay files'}],
  'checks': [checks[c] for c in claimed],
  'not_applicable': [{'property_id': k, 'reason': v} for k, v in na_reason.items()]
    + [{'property_id': c, 'reason': 'claimed in DESIGN.md §3 but its check is not part of this commit yet (under construction)'} for c in ('C02','C08','C20') if c not in claimed],
- 'notes': 'Technique family: deterministic simulation with fault injection. pb_bss has no threads, timers, sockets or file I/O; the simulated system is one process-wide session (shared arrays, reused trainer objects, global numpy RNG, models fed back into the library) driven through seeded histories with injected faults. 17 of 20 properties are pure input->output statements and are listed as not applicable (DESIGN.md §5). Fix commits in /repo: 25f396a, e894685, 0b37955, 0720361, ddbc90f, 0ae8eff, b91eedc, 537b390 (see known_findings.json; one further defect is a listed known finding of C08).',
+ 'notes': 'Technique family: deterministic simulation with fault injection. pb_bss has no threads of its own, no timers, sockets or file I/O; the simulated system is one process-wide session (shared arrays, reused trainer objects, global numpy RNG, models fed back into the library) driven through seeded histories with injected faults. 17 of 20 properties are pure input->output statements and are listed as not applicable (DESIGN.md §5). Fix commits in /repo: 25f396a, e894685, 0b37955, 0720361, ddbc90f, 0ae8eff, b91eedc, 537b390 (see known_findings.json; one further defect is a listed known finding of C08).',
 }
 json.dump(m, open('/verif/MANIFEST.json','w'), indent=1)
